@@ -463,8 +463,8 @@ def step2 (s : St) (name : String) (flags : List String) (vs : List (List Float)
     let l := vs.drop 1
     (s, showV (VecTools.appendAll l), onVec impl "appendAll_spec" fun g => [("appendAll_spec", sameV g l.flatten)])
   | "extend" =>
-    (s, showV (VecTools.extend feq v0 v1), onVec impl "union_iff" fun g =>
-      if noNaN v0 && noNaN v1 then [("union_iff", decide (IsUnion feq v0 v1 g))] else [])
+    (s, showV (VecTools.extend feq v0 v1), onVec impl "extend_spec" fun g =>
+      if noNaN v0 && noNaN v1 then [("extend_spec", decide (IsUnion feq v0 v1 g))] else [])
   | "append2" => (s, showV (VecTools.append2 v0 v1), onVec impl "append_prepend_spec" fun g => [("append_prepend_spec", sameV g (v0 ++ v1))])
   | "prepend" => (s, showV (VecTools.prepend v0 v1), onVec impl "append_prepend_spec" fun g => [("append_prepend_spec", sameV g (v1 ++ v0))])
   | "rep" =>
@@ -802,6 +802,10 @@ def step (s : St) (op : List String) (impl : Option (List String)) : St × Strin
         if normalize && w.all (· > 0) then
           let m := Spec.meanW a w; let sc := Spec.meanW (a.map rabs) w
           [("center_spec", closeV g (a.map (· - m)) (a.map (fun x => rabs x + sc)))]
+        else if !normalize then
+          -- the weights are used as they are: the raw weighted sum is subtracted
+          let m := Spec.dot a w; let sc := Spec.dot (a.map rabs) (w.map rabs)
+          [("centerW_spec", closeV g (a.map (· - m)) (a.map (fun x => rabs x + sc)))]
         else []
       | _, _ => [])
   | "cov" | "var" | "sd" =>
@@ -865,7 +869,22 @@ def step (s : St) (op : List String) (impl : Option (List String)) : St × Strin
       if v0.length != v2.length || v1.length != v2.length then expectErr impl "mismatch_raises" .dimension
       else onScalar impl "cor_sq_le_one" fun g =>
         if allFinite v0 && allFinite v1 && v2.all (fun x => finite x && x > 0) && finite g then
-          [("cor_sq_le_one", g.abs ≤ 1.0 + 1e-6)] else [])
+          let range : List (String × Bool) := [("cor_sq_le_one", g.abs ≤ 1.0 + 1e-6)]
+          -- corW_spec: cov/(sd·sd) of the biased estimates on the weights actually used
+          let spec : List (String × Bool) := (match rats? v0, rats? v1, rats? v2, floatToRat? g with
+           | some x, some y, some wr, some gr =>
+             let sw := S wr
+             let wn := if normalize then wr.map (· / sw) else wr
+             match refCovW x x wn false false, refCovW y y wn false false, refCovW x y wn false false with
+             | some (A, sa), some (B, sb), some (C, _) =>
+               -- well-conditioned only when the variances are not cancellation noise
+               if A * 1048576 < sa || B * 1048576 < sb then [] else
+               [("corW_spec", rabs (gr * gr * A * B - C * C) ≤ pow2neg 14 * (A * B)),
+                ("corW_spec", (gr ≥ 0) == (C ≥ 0) || rabs gr ≤ pow2neg 7)]
+             | _, _, _ => []
+           | _, _, _, _ => [])
+          range ++ spec
+        else [])
   | "shannon" =>
     match v0 with
     | [base] =>
@@ -958,8 +977,8 @@ def step (s : St) (op : List String) (impl : Option (List String)) : St × Strin
     (s, showV (VecTools.appendAll vs), onVec impl "appendAll_spec" fun g =>
       [("appendAll_spec", showV g == showV vs.flatten)])
   | "union" =>
-    (s, showV (VecTools.vectorUnion feq v0 v1), onVec impl "union_iff" fun g =>
-      if noNaN v0 && noNaN v1 then [("union_iff", decide (IsUnion feq v0 v1 g))] else [])
+    (s, showV (VecTools.vectorUnion feq v0 v1), onVec impl "union_shape" fun g =>
+      if noNaN v0 && noNaN v1 then [("union_shape", decide (IsUnionList feq [v0, v1] g))] else [])
   | "inter" =>
     (s, showV (VecTools.vectorIntersection feq v0 v1), onVec impl "inter_iff" fun g =>
       if noNaN v0 && noNaN v1 then
